@@ -37,12 +37,16 @@ type Case struct {
 	Sent     []int  `json:"sent"`
 }
 
+// versions are numbered as in Negotiate.tla: 0..4 = 1.0 .. 1.4; 10 * major + minor for another major release (21 = 2.1)
 func ver(i int) kmip.ProtocolVersion {
+	if i >= 10 {
+		return kmip.ProtocolVersion{ProtocolVersionMajor: int32(i / 10), ProtocolVersionMinor: int32(i % 10)}
+	}
 	return kmip.ProtocolVersion{ProtocolVersionMajor: 1, ProtocolVersionMinor: int32(i)}
 }
 func idx(v kmip.ProtocolVersion) int {
 	if v.ProtocolVersionMajor != 1 {
-		return 100 + int(v.ProtocolVersionMajor)
+		return 10*int(v.ProtocolVersionMajor) + int(v.ProtocolVersionMinor)
 	}
 	return int(v.ProtocolVersionMinor)
 }
